@@ -273,6 +273,27 @@ CHECKS = {
    technique="Coq proof (symbolic AEAD / signature model, induction over the frame stream with an arbitrary post-error budget) + "
              "differential correspondence and judging against real endpoints behind a tampering TCP proxy and a key-holding raw peer",
    ref="5/C16"),
+ "C17": dict(
+   text="Coq theorems over Models/Dispatch.v (the correlation table of client.dispatch with p2pRequest's once-only completion and "
+        "waitForResult's first-of completion / own cancellation) for EVERY sequence of events - requests entering, reply frames "
+        "with any nonce in any order (reordered, duplicated, for nonces never issued, after the request was cancelled, after the "
+        "connection ended), cancellations, the connection ending: a request that returns a reply returns the content of a reply "
+        "frame that carried ITS nonce and arrived after it was put on the wire (C17_own_reply), no two requests of a connection "
+        "share a nonce (C17_nonces_distinct, C17_reply_not_crossed), a request call returns at most once "
+        "(C17_returns_at_most_once), a cancelled request returns and every request still pending when the connection ends returns "
+        "(C17_cancel_returns, C17_conn_done_fails_pending). Tie: (a) the REAL dispatch goroutine on harness-owned channels, driven "
+        "event by event with random scripts, nonce assignment and every return compared with the extracted model; (b) a real "
+        "server sending 1..200 concurrent requests to 1..4 real responder servers that answer in random order with random delays "
+        "and drop a random subset, callers cancelling at random times, a responder leaving mid-flight, a peer that refuses the "
+        "connection and one that accepts it and stays silent: every returned reply must embed the request's own tag and "
+        "responder, errors must be prompt, and requests to reachable peers must still be answered.",
+   note=TB + "partial: 'promptly' is observed as wall-clock bounds (cancellation + 1.5 s, 6.5 s overall), not proved; scheduler "
+        "fairness is runtime. Residual, recorded in DESIGN.md: the call handler still dials and shakes hands synchronously, so "
+        "requests to other peers wait behind a slow handshake for at most that request's deadline (after fix 726949f; for ever "
+        "before). p2pRequest is copied by value together with its sync.Once; the model's once-flag is the shared reply channel's.",
+   technique="Coq proof (invariant over the event list: table/wire/counter consistency, once-only returns) + event-level "
+             "differential correspondence on the real dispatcher + concurrent request runs against scripted real responders",
+   ref="5/C17"),
  "C15": dict(
    text="Coq theorems over the Gallina model of writeTo/readFrom (Models/Framing.v) where a connection is an arbitrary list of "
         "chunks: for every list of payloads of 1..2^20 bytes and EVERY chunking of the concatenated frames the reader returns "
@@ -288,7 +309,7 @@ CHECKS = {
 NOT_YET = {
 }
 
-PENDING = ["C01","C02","C03","C04","C05","C06","C07","C08","C10","C11","C13","C15","C17","C18","C19","C20"]
+PENDING = ["C01","C02","C03","C04","C05","C06","C07","C08","C10","C11","C13","C15","C18","C19","C20"]
 
 def main():
     checks = []
